@@ -1,6 +1,8 @@
 import Driver.Util
 import ZvbiModel.Mux.Model
 import ZvbiModel.Mux.Spec
+import ZvbiModel.Mux.RawModel
+import ZvbiModel.Mux.RawSpec
 namespace Zvbi.Driver.Mux
 open Zvbi.Driver Zvbi.Mux
 
@@ -38,7 +40,7 @@ def csvNats (s : String) : Option (List Nat) :=
 def showLines (ls : List Zvbi.Mux.EnParse.Line) : String :=
   " ".intercalate (ls.map fun l => s!"{l.svc.code} {l.line} {toHex l.data}")
 
-def step (st : Option Mux) (ws : List String) : Option Mux × String :=
+def stepMux (st : Option Mux) (rawLeft : Nat) (ws : List String) : Option Mux × String :=
   match ws with
   | ["consts"] =>
     (st, s!"ok ttx10={SL_TTX_L10} ttx25={SL_TTX_L25} ttx={SL_TTX} vps={SL_VPS} vpsf2={SL_VPS_F2} cc1={SL_CC_F1} cc={SL_CC} wss={SL_WSS} vbi625={SL_VBI625} maxpes={MAX_PES} sliced=64 data=56 du_ttx={DU_TTX} du_vps={DU_VPS} du_wss={DU_WSS} du_cc={DU_CC} du_stuff={DU_STUFF} stream={PRIVATE_STREAM_1}")
@@ -87,7 +89,7 @@ def step (st : Option Mux) (ws : List String) : Option Mux × String :=
       | none => (st, "ok malformed"))
     | _, _, _ => (st, "rej parse")
   | op :: args =>
-    if op ∈ ["dataid", "size", "feed", "cor", "corall", "reset", "state", "feedraw"] then
+    if op ∈ ["dataid", "size", "feed", "cor", "corall", "reset", "state"] then
       match st with
       | none => (st, "rej nomux")
       | some m =>
@@ -101,7 +103,7 @@ def step (st : Option Mux) (ws : List String) : Option Mux × String :=
             (some m, s!"ok {m.cfg.minSize} {m.cfg.maxSize}")
           | _, _ => (st, "rej parse"))
         | "state", [] =>
-          (st, s!"ok dataid={m.cfg.dataId} min={m.cfg.minSize} max={m.cfg.maxSize} pid={m.cfg.pid} cc={m.cc &&& 15} pending={if m.corOffset < m.corEnd then m.corEnd - m.corOffset else 0}")
+          (st, s!"ok dataid={m.cfg.dataId} min={m.cfg.minSize} max={m.cfg.maxSize} pid={m.cfg.pid} cc={m.cc &&& 15} pending={if m.corOffset < m.corEnd then m.corEnd - m.corOffset else 0} rawleft={rawLeft}")
         | "reset", [] => (some (reset m), "ok")
         | "feed", pts :: mask :: failAt :: n :: rest =>
           (match ptsArg pts, parseNat mask, parseNat failAt, linesArg n rest with
@@ -123,10 +125,82 @@ def step (st : Option Mux) (ws : List String) : Option Mux × String :=
             let (m, ok, calls, sl, idx, out) := corAll sizes lines (u32 mask) pts 200000 m 0 []
             (some m, s!"ok {bool ok} {calls} {sl} {idx} {toHex out}")
           | _, _, _, _ => (st, "rej parse"))
-        | "feedraw", _ => (st, "rej op")
         | _, _ => (st, "rej parse")
     else (st, "rej op")
   | [] => (st, "rej op")
+
+/-- the raw VBI frame the harness builds: byte `k` = `(seed + 7 k) & 255` -/
+def rawFrame (seed n : Nat) : Bytes := (List.range n).map fun k => (seed + 7 * k) % 256
+
+def showItems (ls : List Zvbi.Mux.RawSpec.Out) : String :=
+  " ".intercalate (ls.map fun
+    | .line l => s!"L {l.svc.code} {l.line} {toHex l.data}"
+    | .raw r => s!"R {r.line} {r.pos} {toHex r.px}")
+
+/-- `feedraw` / `feedraw2` argument lists after the op name -/
+def feedRaw (rm : RMux) (pts mask off spl s0 c0 s1 c1 seed : String) (il rnull : Nat) (n : String) (rest : List String) :
+    Option RMux × String :=
+  match ptsArg pts, parseNat mask, parseNat off, parseNat spl, parseNat s0, parseNat c0, parseNat s1, parseNat c1,
+        parseNat seed, linesArg n rest with
+  | some pts, some mask, some off, some spl, some s0, some c0, some s1, some c1, some seed, some lines =>
+    if spl > 4096 ∨ c0 > 64 ∨ c1 > 64 ∨ off > 1000000 ∨ s0 > 1000000 ∨ s1 > 1000000 ∨ il > 1 ∨ rnull > 1 then
+      (some rm, "rej parse")
+    else
+      let sp : Sp := { offset := off, spl, start0 := s0, count0 := c0, start1 := s1, count1 := c1, interlaced := il == 1 }
+      let raw := if rnull = 1 then none else some (rawFrame seed ((c0 + c1) * spl))
+      let (rm', o) := feedR Zvbi.Gen.muxKeepsLastDuSize rm lines (u32 mask) raw (some sp) pts
+      match o.abort with
+      | some e => (some rm', s!"rej model:{e.name}")
+      | none =>
+        let sizes := if o.calls.isEmpty then "-" else
+          ",".intercalate (o.calls.map fun c => match c with | some b => toString b.length | none => "0")
+        (some rm', s!"ok {bool o.ok} {o.calls.length} {sizes} {toHex o.bytes}")
+  | _, _, _, _, _, _, _, _, _, _ => (some rm, "rej parse")
+
+def step (st : Option RMux) (ws : List String) : Option RMux × String :=
+  match ws with
+  | "feedraw" :: args | "feedraw2" :: args =>
+    match st with
+    | none => (st, "rej nomux")
+    | some rm =>
+      match ws.head?, args with
+      | some "feedraw", pts :: mask :: off :: spl :: s0 :: c0 :: s1 :: c1 :: seed :: n :: rest =>
+        feedRaw rm pts mask off spl s0 c0 s1 c1 seed 0 0 n rest
+      | some "feedraw2", pts :: mask :: off :: spl :: s0 :: c0 :: s1 :: c1 :: seed :: il :: rnull :: n :: rest =>
+        (match parseNat il, parseNat rnull with
+         | some il, some rnull => feedRaw rm pts mask off spl s0 c0 s1 c1 seed il rnull n rest
+         | _, _ => (st, "rej parse"))
+      | _, _ => (st, "rej parse")
+  | ["mraw", a, did, vs, line, fpp, ntot, stf, rl, seed] =>
+    match parseNat a, parseNat did, parseNat vs, parseNat line, parseNat fpp, parseNat ntot, parseNat stf, parseNat rl,
+          parseNat seed with
+    | some a, some did, some vs, some line, some fpp, some ntot, some stf, some rl, some seed =>
+      if a > 70000 ∨ vs > 3 ∨ stf > 1 ∨ rl > 2000 ∨ did ≥ 2 ^ 32 ∨ line ≥ 2 ^ 32 ∨ fpp ≥ 2 ^ 32 ∨ ntot ≥ 2 ^ 32 then
+        (st, "rej parse")
+      else
+        let r := rawFrame seed rl
+        match multiplexRaw a r did vs line fpp ntot (stf == 1) with
+        | .ok res =>
+          let buf := res.out ++ List.replicate (a - res.out.length) 0xAA
+          (st, s!"ok {bool res.ok} {res.packetLeft} {res.rawLeft} {a - res.packetLeft} {rl - res.rawLeft} {toHex buf}")
+        | .error e => (st, s!"rej model:{e.name}")
+    | _, _, _, _, _, _, _, _, _ => (st, "rej parse")
+  | "mraw" :: _ => (st, "rej parse")
+  -- oracle support (model side only): the independent reader for packets with raw data units
+  | ["enparser", hex] =>
+    match parseHex hex with
+    | some bs => (match Zvbi.Mux.RawSpec.parsePesR bs with
+      | some p => (st, s!"ok pkt {p.pts} {p.dataId} {p.size} {p.items.length}" ++
+          (if p.items.isEmpty then "" else " " ++ showItems p.items))
+      | none => (st, "ok malformed"))
+    | none => (st, "rej parse")
+  | _ =>
+    let (m', out) := stepMux (st.map (·.mux)) ((st.map (·.raw.left)).getD 0) ws
+    let raw' : RawSt :=
+      match ws with
+      | "new" :: _ => if out.startsWith "ok" then {} else (st.map (·.raw)).getD {}
+      | _ => (st.map (·.raw)).getD {}
+    (m'.map fun m => { mux := m, raw := raw' }, out)
 
 def main : IO Unit := runLoop none step
 end Zvbi.Driver.Mux
